@@ -853,9 +853,32 @@ def accessor_agreement(ctx, base_tq, rule='accessor-agreement'):
                 clamps = [n for n in fn.walk() if n['k'] == 'BinaryOperator' and n.get('op') == '=' and
                           sym(fn, n['c'][0], inline=False) == ('P', p0)]
                 okc = False
+                # the value every later use sees, as a function of (argument, count): must be max(0, min(argument, count)) --
+                # "all nvec arguments" includes negative ones, and a matrix is sized by it
+                from .xeval import ev as _ev, CannotEval as _CE
+                vals_ok = bool(clamps)
+                bad_at = None
+                for a0 in range(-3, 6):
+                    for c0 in range(0, 4):
+                        cur = a0
+                        try:
+                            for c in sorted(clamps, key=lambda n_: (n_['l'], n_['col'])):
+                                cur = _ev(fn, c['c'][1], {('local', p0): cur, ('local', cnt): c0})
+                        except _CE:
+                            vals_ok = None
+                            break
+                        if cur != max(0, min(a0, c0)) and bad_at is None:
+                            bad_at = (a0, c0, cur)
+                    if vals_ok is None:
+                        break
+                if vals_ok is None:
+                    raise AnalysisBroken('%s: clamp of %s outside the evaluable fragment' % (fn.qname, p0))
+                if bad_at is not None:
+                    problems.append('%s(%d) with %d converged pairs sizes the result by %d columns instead of %d (the argument is not clamped to [0, count])' %
+                                    (acc, bad_at[0], bad_at[1], bad_at[2], max(0, min(bad_at[0], bad_at[1]))))
                 for c in clamps:
                     t = sym(fn, c['c'][1], inline=False)
-                    if t in (('call', 'min', ('L', cnt), ('P', p0)), ('call', 'min', ('P', p0), ('L', cnt))):
+                    if 'min' in show(t) and p0 in show(t) and cnt in show(t):
                         okc = True
                         pos = fn.pos_of(c)
                         # dominates every other use of the parameter
